@@ -736,13 +736,17 @@ class _Resolution:
             if self.resolver.flags is not None:
                 request.flags = self.resolver.flags
 
-            self.nameservers = self.resolver._enrich_nameservers(
-                self.resolver._nameservers,
-                self.resolver.nameserver_ports,
-                self.resolver.port,
-            )
-            if self.resolver.rotate:
-                random.shuffle(self.nameservers)
+            if self.request is None:
+                # First request of this resolution.  The list is built only
+                # once so that a nameserver removed as "no good" while trying
+                # one candidate name is not asked again for the next one.
+                self.nameservers = self.resolver._enrich_nameservers(
+                    self.resolver._nameservers,
+                    self.resolver.nameserver_ports,
+                    self.resolver.port,
+                )
+                if self.resolver.rotate:
+                    random.shuffle(self.nameservers)
             self.current_nameservers = self.nameservers[:]
             self.errors = []
             self.nameserver = None
